@@ -12,7 +12,11 @@ def space(taskname, which, tier, phase):
     key = (taskname, which, tier, phase)
     if key not in _SPACE_CACHE:
         t = base.load(taskname)
-        _SPACE_CACHE[key] = (t.pair_space if which == "pair" else t.single_space)(tier, phase)
+        if which == "edge":       # optional smaller space for two-execution relations (C08/C09)
+            fn = getattr(t, "edge_space", None) or t.pair_space
+        else:
+            fn = t.pair_space if which == "pair" else t.single_space
+        _SPACE_CACHE[key] = fn(tier, phase)
     return _SPACE_CACHE[key]
 
 
@@ -468,9 +472,9 @@ def shard_edges(arg):
 
 
 def edge_plan(pid, taskname, tier, phase, kinds, nshards=64):
-    n = len(space(taskname, "pair", tier, phase))
+    n = len(space(taskname, "edge", tier, phase))
     nshards = max(1, min(nshards, n))
-    return [(pid, taskname, "pair", tier, phase, k, nshards, tuple(kinds)) for k in range(nshards)]
+    return [(pid, taskname, "edge", tier, phase, k, nshards, tuple(kinds)) for k in range(nshards)]
 
 
 def replay_edge(case, acc, pid):
